@@ -145,6 +145,16 @@ def band_cases(rng, n, ctx):
         except ValueError:
             continue
         xs = np.round(rng.uniform(0.1, 2.0, size=int(rng.integers(1, 5))), 3)
+        # the abscissae may be handed in as an array of floats, a list of floats or of integers, an integer array or a range
+        xform = str(rng.choice(['farray', 'flist', 'ilist', 'iarray', 'range']))
+        if xform == 'flist':
+            xs = [float(v) for v in xs]
+        elif xform == 'ilist':
+            xs = [int(v) for v in rng.integers(0, 4, size=len(xs))]
+        elif xform == 'iarray':
+            xs = np.arange(1, 1 + len(xs))
+        elif xform == 'range':
+            xs = range(0, len(xs))
         if fam == 'poly':
             def func(a, x):
                 return sum(a[k] * x ** k for k in range(npar))
@@ -158,7 +168,7 @@ def band_cases(rng, n, ctx):
         except Exception as e:  # noqa: BLE001
             cases.append({'id': 'band-%04d' % i, 'ev': 'raised', 't': type(e).__name__})
             continue
-        cases.append({'id': 'band-%04d-%s%d' % (i, fam, npar), 'ev': 'band', 'family': fam, 'beta': [rat(float(b.value)) for b in beta],
+        cases.append({'id': 'band-%04d-%s%d-%s' % (i, fam, npar, xform), 'ev': 'band', 'family': fam, 'beta': [rat(float(b.value)) for b in beta],
                       'xs': [rat(float(x)) for x in xs], 'cov': mat(C), 'err': [ratx(float(e)) for e in err]})
         ctx.nontrivial.add(('band', fam, npar))
     return cases
@@ -186,13 +196,26 @@ def sortcorr_cases(ctx, cfg):
                     c = dict(c0)
                     c['id'] = c0['id'] + tag
                     yd = {k: list(range(ln)) for k, ln in order}
+                    kl = list(c['kl'])                       # the caller's key list, used for two matrices in turn (correlation, then covariance)
+                    corr2 = 7.0 * corr + 3.0
                     try:
-                        res = pe.obs.sort_corr(corr, list(c['kl']), yd)
+                        res = pe.obs.sort_corr(corr, kl, yd)
                         c['res'] = mat(res)
                     except Exception as e:  # noqa: BLE001
                         c['res'] = [[rat(0)]]
                     c['corr'] = mat(corr)
                     cases.append(c)
+                    if not tag:
+                        c2 = dict(c0)
+                        c2['id'] = c0['id'] + '-second'
+                        try:
+                            c2['res'] = mat(pe.obs.sort_corr(corr2, kl, yd))
+                        except Exception as e:  # noqa: BLE001
+                            c2['res'] = [[rat(0)]]
+                        c2['corr'] = mat(corr2)
+                        cases.append(c2)
+                        cases.append({'id': c0['id'] + '-frame', 'ev': 'frame', 'what': 'sort_corr leaves the key list and the matrix as they were',
+                                      'before': list(c0['kl']) + [x for row in mat(7.0 * corr + 3.0) for x in row], 'after': list(kl) + [x for row in mat(corr2) for x in row]})
         ctx.extra['tlc_enumerated_sortcorr'] = len(cases)
         return cases
     finally:
